@@ -287,7 +287,7 @@ func (g *Gen) pureApp(fc *FuncContract, args []string) (TV, error) {
 			return TV{}, fmt.Errorf("pure extern %s must have one result", fc.Target)
 		}
 		rt = fn.Signature.Results().At(0).Type()
-	} else if sig := g.c.sigByLabel[fc.Target]; sig != nil {
+	} else if sig := g.c.externSig(fc.Target); sig != nil {
 		if sig.Recv() != nil {
 			sorts = append(sorts, g.sortOf(sig.Recv().Type()))
 		}
